@@ -23,6 +23,8 @@ func init() {
 			"C29.R1 MPT: RemoveAllSignatures only when signatures exist; empty => ErrNoSignatures; write only after a successful read",
 			"C29.R2 table agreement: catalog keys written/deleted are keys of the validator's catalog table",
 			"C29.R4 MPT: the field walk drops only /FT /Sig fields and descends into every group before keeping it",
+			"C29.R6 MPT: a /Fields entry keeps its own reference only where there is nothing to match or after the page-widget match was tried",
+			"C29.R5 pairing: the annotation reference removed from a page is the reference of the widget whose /P named the page",
 			"C29.R3 coverage: RemoveAllSignatures deletes Perms and DSS on every path, SigFlags/AcroForm when fields were dropped",
 		},
 		Assumptions: []string{"the validator's catalog table (validate.validateRootObject) lists the ISO 32000 catalog keys"},
@@ -63,6 +65,10 @@ func runC29(c *Ctx) {
 	r.MinInst["C29.R2"] = 10
 	r.MinInst["C29.R3"] = 3
 	r.MinInst["C29.R4"] = 2
+	r.MinInst["C29.R5"] = 2
+	checkWidgetPairing(c)
+	r.MinInst["C29.R6"] = 3
+	checkSigFieldNormalisation(c)
 	checkSignatureFieldWalk(c)
 
 	// ---------- R1
@@ -448,5 +454,270 @@ func checkSignatureFieldWalk(c *Ctx) {
 		r.OK("C29.R4", fid, "descend into kids", p.Pos(fn.Pos()), "a field with field kids is kept only after the walk descended into the kids", true)
 	} else {
 		r.Bad("C29.R4", fid, "descend into kids", bad, "a field that has field kids can be kept without the walk descending into them: a signature field below such a group (hierarchical names like grp.sig1) survives the removal together with its signature value and widget")
+	}
+}
+
+// ---------------- C29.R5 (round 3 of seeding): the annotation removed is the one whose /P named the page ----------------
+
+// derefSourceOf: the reference a dictionary value was dereferenced from (xRefTable.DereferenceDict(ref)), or the
+// parameter it is (pairing is then checked at the call sites).
+func derefSourceOf(v ssa.Value) (ref ssa.Value, param *ssa.Parameter) {
+	for _, l := range valueLeaves(v) {
+		switch x := l.(type) {
+		case *ssa.Parameter:
+			return nil, x
+		case *ssa.Extract:
+			if call, ok := x.Tuple.(*ssa.Call); ok {
+				if _, rf := callRef(call); strings.HasSuffix(rf, "DereferenceDict") && len(call.Call.Args) >= 2 {
+					return call.Call.Args[1], nil
+				}
+			}
+		case *ssa.Call:
+			if _, rf := callRef(x); strings.HasSuffix(rf, "DereferenceDict") && len(x.Call.Args) >= 2 {
+				return x.Call.Args[1], nil
+			}
+		}
+	}
+	return nil, nil
+}
+
+func sameRefValue(a, b ssa.Value) bool {
+	if a == b {
+		return true
+	}
+	// loads of the same cell, conversions to interface of the same value
+	strip := func(v ssa.Value) ssa.Value {
+		for {
+			switch x := v.(type) {
+			case *ssa.MakeInterface:
+				v = x.X
+			case *ssa.ChangeType:
+				v = x.X
+			case *ssa.UnOp:
+				if x.Op == token.MUL {
+					if al, ok := x.X.(*ssa.Alloc); ok {
+						// single stored value?
+						var stored ssa.Value
+						n := 0
+						for _, rf := range *al.Referrers() {
+							if st, ok := rf.(*ssa.Store); ok && st.Addr == ssa.Value(al) {
+								stored = st.Val
+								n++
+							}
+						}
+						if n == 1 {
+							v = stored
+							continue
+						}
+					}
+				}
+				return v
+			default:
+				return v
+			}
+		}
+	}
+	return strip(a) == strip(b)
+}
+
+// checkWidgetPairing: removePageAnnotationForSig(x, page, annot) removes `annot` from the /Annots of `page`. The page is
+// read from the /P entry of some widget dictionary D; `annot` has to be the reference D was dereferenced from. Through
+// helper parameters the pairing (ref, dict) is followed to the call sites.
+func checkWidgetPairing(c *Ctx) {
+	p, r := c.P, c.R
+	cg := c.CG()
+	target := "pkg/pdfcpu/model.removePageAnnotationForSig"
+	n := 0
+	var check func(fn *ssa.Function, refV, dictV ssa.Value, depth int) string
+	check = func(fn *ssa.Function, refV, dictV ssa.Value, depth int) string {
+		if depth > 3 {
+			return ""
+		}
+		src, prm := derefSourceOf(dictV)
+		if src != nil {
+			if sameRefValue(src, refV) {
+				return ""
+			}
+			return "the dictionary was dereferenced from " + exprName(src) + " but the reference handed on is " + exprName(refV) + " (" + p.Pos(refV.Pos()) + ")"
+		}
+		if prm == nil {
+			return ""
+		}
+		// refV should be a parameter too; follow to callers
+		var rprm *ssa.Parameter
+		for _, l := range valueLeaves(refV) {
+			if x, ok := l.(*ssa.Parameter); ok {
+				rprm = x
+			}
+		}
+		if rprm == nil {
+			return ""
+		}
+		ri, di := paramIndex(fn, rprm), paramIndex(fn, prm)
+		if ri < 0 || di < 0 {
+			return ""
+		}
+		for _, caller := range cg.In[fn] {
+			var why string
+			eachInstr(caller, func(_ *ssa.BasicBlock, _ int, i ssa.Instruction) {
+				call, ok := i.(*ssa.Call)
+				if !ok || why != "" {
+					return
+				}
+				if callee := staticCallee(call); callee == nil || unwrapSynthetic(callee) != fn {
+					return
+				}
+				if ri >= len(call.Call.Args) || di >= len(call.Call.Args) {
+					return
+				}
+				if w := check(caller, call.Call.Args[ri], call.Call.Args[di], depth+1); w != "" {
+					why = "at " + p.Pos(call.Pos()) + " in " + FuncID(caller) + ": " + w
+				}
+			})
+			if why != "" {
+				return why
+			}
+		}
+		return ""
+	}
+	for _, fn := range p.Funcs {
+		if fn.Pkg == nil || fn.Pkg.Pkg.Path() != modPath+"/pkg/pdfcpu/model" {
+			continue
+		}
+		fn := fn
+		k := 0
+		eachInstr(fn, func(_ *ssa.BasicBlock, _ int, i ssa.Instruction) {
+			call, ok := i.(*ssa.Call)
+			if !ok {
+				return
+			}
+			if _, rf := callRef(call); rf != target || len(call.Call.Args) < 3 {
+				return
+			}
+			k++
+			n++
+			construct := fmt.Sprintf("removePageAnnotationForSig#%d", k)
+			// the page argument: *p where p = D.IndirectRefEntry("P")
+			var dictV ssa.Value
+			for _, l := range valueLeaves(call.Call.Args[1]) {
+				v := l
+				if ld, ok := v.(*ssa.UnOp); ok && ld.Op == token.MUL {
+					v = ld.X
+				}
+				if pc, ok := v.(*ssa.Call); ok {
+					if _, prf := callRef(pc); strings.HasSuffix(prf, "IndirectRefEntry") && len(pc.Call.Args) >= 2 {
+						if key, ok := constString(pc.Call.Args[1]); ok && key == "P" {
+							dictV = pc.Call.Args[0]
+						}
+					}
+				}
+			}
+			if dictV == nil {
+				r.OK("C29.R5", FuncID(fn), construct, p.Pos(call.Pos()), "the page reference does not come from a widget's /P entry here", false)
+				return
+			}
+			if why := check(fn, call.Call.Args[2], dictV, 0); why != "" {
+				r.Bad("C29.R5", FuncID(fn), construct, p.Pos(call.Pos()), "the annotation reference removed from the page is not the reference of the widget whose /P named that page ("+why+"): the page's /Annots lists the widget's own reference, so nothing is removed and the signature widget stays on the page")
+			} else {
+				r.OK("C29.R5", FuncID(fn), construct, p.Pos(call.Pos()), "the reference removed from the page's /Annots is the one the widget dictionary (whose /P named the page) was dereferenced from", true)
+			}
+		})
+	}
+	if n == 0 {
+		r.Bad("C29.R5", target, "anchor", "", "UNRESOLVED-ANCHOR: no call of removePageAnnotationForSig")
+	}
+}
+
+// ---------------- C29.R6 (round 3 of seeding): signed visible signature fields are normalised to their page widget ----------------
+
+// checkSigFieldNormalisation: removal drops a signature field's widget from the page by looking the FIELD's reference up in
+// the page's /Annots. That works because validation (pageAnnotIndRefForAcroField) first replaces a /Fields entry that
+// merely duplicates a page widget by the widget's own reference. The function may hand the field's own reference back only
+// where there is nothing to match — no /Rect, an unsigned signature field (no /V), an invisible rectangle — or after the
+// appearance/rectangle match (locateAnnForAPAndRect) was tried. A blanket "signature fields keep their object" leaves a
+// visible, signed duplicate in /Fields whose widget removal can never find.
+func checkSigFieldNormalisation(c *Ctx) {
+	p, r := c.P, c.R
+	fid := "pkg/pdfcpu/validate.pageAnnotIndRefForAcroField"
+	fn := p.Func(fid)
+	if fn == nil {
+		r.Bad("C29.R6", fid, "anchor", "", "UNRESOLVED-ANCHOR")
+		return
+	}
+	var own *ssa.Alloc // the spilled indRef parameter
+	for _, prm := range fn.Params {
+		if typeNameOf(prm.Type()) == "IndirectRef" && prm.Referrers() != nil {
+			for _, rf := range *prm.Referrers() {
+				if st, ok := rf.(*ssa.Store); ok {
+					if al, ok := st.Addr.(*ssa.Alloc); ok {
+						own = al
+					}
+				}
+			}
+		}
+	}
+	if own == nil {
+		r.Bad("C29.R6", fid, "own reference", p.Pos(fn.Pos()), "UNRESOLVED-ANCHOR: the field's own reference is not handed back by address any more")
+		return
+	}
+	genE := map[Edge][]string{}
+	tried := map[ssa.Instruction]bool{}
+	eachInstr(fn, func(_ *ssa.BasicBlock, _ int, i ssa.Instruction) {
+		call, ok := i.(*ssa.Call)
+		if !ok {
+			return
+		}
+		_, ref := callRef(call)
+		switch {
+		case ref == "pkg/pdfcpu/validate.locateAnnForAPAndRect":
+			tried[i] = true
+		case strings.HasSuffix(ref, "Dict.Find") || strings.HasSuffix(ref, "(Dict).Find"):
+			if len(call.Call.Args) >= 2 {
+				if k, ok := constString(call.Call.Args[1]); ok && k == "V" {
+					for _, rf := range *call.Referrers() {
+						if ex, ok := rf.(*ssa.Extract); ok && ex.Index == 1 {
+							for _, e := range condEdges(ex, false) {
+								genE[e] = append(genE[e], "nomatch")
+							}
+						}
+					}
+				}
+			}
+		case strings.HasSuffix(ref, "Rectangle.Visible") || strings.HasSuffix(ref, "(*Rectangle).Visible") || strings.HasSuffix(ref, ".Visible"):
+			for _, e := range condEdges(call, false) {
+				genE[e] = append(genE[e], "nomatch")
+			}
+		case strings.HasSuffix(ref, "DereferenceArray"):
+			// arr == nil: no /Rect
+			for _, rf := range *call.Referrers() {
+				if ex, ok := rf.(*ssa.Extract); ok && ex.Index == 0 {
+					for _, e := range nilCheckEdges(ex, true) {
+						genE[e] = append(genE[e], "nomatch")
+					}
+				}
+			}
+		}
+	})
+	ff := NewFactFlow(fn, func(i ssa.Instruction) []string {
+		if tried[i] {
+			return []string{"tried"}
+		}
+		return nil
+	}, genE, nil, nil)
+	n := 0
+	for _, ret := range returnsOf(fn) {
+		if len(ret.Results) == 0 || ret.Results[0] != ssa.Value(own) {
+			continue
+		}
+		n++
+		construct := fmt.Sprintf("own reference return#%d", n)
+		if ff.Holds(ret, "tried") || ff.Holds(ret, "nomatch") {
+			r.OK("C29.R6", fid, construct, posOrFn(p, ret, fn), "the field keeps its own reference only where there is nothing to match (no /Rect, unsigned, invisible) or after the widget match was tried", true)
+		} else {
+			r.Bad("C29.R6", fid, construct, posOrFn(p, ret, fn), "a field can keep its own reference although it may duplicate a page widget and no match was attempted: signature removal looks the field's reference up in the page's /Annots, finds nothing, and leaves the signature widget (and its signature dictionary) on the page")
+		}
+	}
+	if n == 0 {
+		r.Bad("C29.R6", fid, "own reference", p.Pos(fn.Pos()), "UNRESOLVED-ANCHOR: no return of the field's own reference found")
 	}
 }
